@@ -1,0 +1,51 @@
+//go:build verif
+
+package config
+
+// Contracts for the server options (comment-only; read by /verif/govc).
+// An options object owns the storage of its scalar options: every setter allocates a fresh cell for the value it is
+// given, and nothing but the setter writes the option. Copying options into a server (Assign) goes through the setters,
+// so a server's limits and intervals cannot change behind its back when the application later edits the options value
+// it started from (or builds a second server from it).
+
+//@ func (*ServerOptions).SetMaxHttpBufferSize(maxHttpBufferSize)
+//@   props C10
+//@   requires s != nil
+//@   modifies s.maxHttpBufferSize
+//@   census [C10.opts.limit.census] (*ServerOptions).maxHttpBufferSize written only by (*ServerOptions).SetMaxHttpBufferSize
+//@   ensures [C10.opts.limit.own] s.maxHttpBufferSize != nil && fresh(s.maxHttpBufferSize) && deref(s.maxHttpBufferSize) == maxHttpBufferSize
+
+//@ func (*ServerOptions).SetPingTimeout(pingTimeout)
+//@   props C07
+//@   requires s != nil
+//@   modifies s.pingTimeout
+//@   census [C07.opts.timeout.census] (*ServerOptions).pingTimeout written only by (*ServerOptions).SetPingTimeout
+//@   ensures [C07.opts.timeout.own] s.pingTimeout != nil && fresh(s.pingTimeout) && deref(s.pingTimeout) == pingTimeout
+
+//@ func (*ServerOptions).SetPingInterval(pingInterval)
+//@   props C07
+//@   requires s != nil
+//@   modifies s.pingInterval
+//@   census [C07.opts.interval.census] (*ServerOptions).pingInterval written only by (*ServerOptions).SetPingInterval
+//@   ensures [C07.opts.interval.own] s.pingInterval != nil && fresh(s.pingInterval) && deref(s.pingInterval) == pingInterval
+
+//@ func (*ServerOptions).SetUpgradeTimeout(upgradeTimeout)
+//@   props C08
+//@   requires s != nil
+//@   modifies s.upgradeTimeout
+//@   census [C08.opts.upgradetimeout.census] (*ServerOptions).upgradeTimeout written only by (*ServerOptions).SetUpgradeTimeout
+//@   ensures [C08.opts.upgradetimeout.own] s.upgradeTimeout != nil && fresh(s.upgradeTimeout) && deref(s.upgradeTimeout) == upgradeTimeout
+
+//@ func (*ServerOptions).SetAllowUpgrades(allowUpgrades)
+//@   props C08, C06
+//@   requires s != nil
+//@   modifies s.allowUpgrades
+//@   census [C08.opts.allowupgrades.census,C06.opts.allowupgrades.census] (*ServerOptions).allowUpgrades written only by (*ServerOptions).SetAllowUpgrades
+//@   ensures [C08.opts.allowupgrades.own,C06.opts.allowupgrades.own] s.allowUpgrades != nil && fresh(s.allowUpgrades) && deref(s.allowUpgrades) == allowUpgrades
+
+//@ func (*ServerOptions).SetAllowEIO3(allowEIO3)
+//@   props C05, C06
+//@   requires s != nil
+//@   modifies s.allowEIO3
+//@   census [C05.opts.eio3.census,C06.opts.eio3.census] (*ServerOptions).allowEIO3 written only by (*ServerOptions).SetAllowEIO3
+//@   ensures [C05.opts.eio3.own,C06.opts.eio3.own] s.allowEIO3 != nil && fresh(s.allowEIO3) && deref(s.allowEIO3) == allowEIO3
